@@ -185,8 +185,8 @@ def definition_converters_from_words(words, converter_registry, converter_cache)
             )
         except Exception as e:
             raise RuntimeError(
-                f'Error constructing definition type "%s": {e.__class__.__name__}: {e!s}%s'
-                % (call_expression, words[0].where_str())
+                'Error constructing definition type "%s": %s: %s%s'
+                % (call_expression, e.__class__.__name__, e, words[0].where_str())
             )
     else:
         import_path = flds[0] + "_phil_converters"
@@ -200,8 +200,8 @@ def definition_converters_from_words(words, converter_registry, converter_cache)
                 )
             except Exception as e:
                 raise RuntimeError(
-                    f'Error evaluating definition type "%s": {e.__class__.__name__}: {e!s}%s'
-                    % (call_expression, words[0].where_str())
+                    'Error evaluating definition type "%s": %s: %s%s'
+                    % (call_expression, e.__class__.__name__, e, words[0].where_str())
                 )
         try:
             imported = _import_python_object(
@@ -224,8 +224,8 @@ def definition_converters_from_words(words, converter_registry, converter_cache)
             converters_instance = imported.object(**keyword_args)
         except Exception as e:
             raise RuntimeError(
-                f'Error constructing definition type "%s": {e.__class__.__name__}: {e!s}%s'
-                % (call_expression, words[0].where_str())
+                'Error constructing definition type "%s": %s: %s%s'
+                % (call_expression, e.__class__.__name__, e, words[0].where_str())
             )
     converter_cache[call_expression] = weakref.ref(converters_instance)
     return converters_instance
@@ -768,8 +768,8 @@ class definition(slots_getstate_setstate):
             return self.type.from_words
         except AttributeError as e:
             raise RuntimeError(
-                f".type=%s does not have a from_words method%s: {e.__class__.__name__}: {e!s}"
-                % (str(self.type), self.where_str)
+                ".type=%s does not have a from_words method%s: %s: %s"
+                % (str(self.type), self.where_str, e.__class__.__name__, e)
             )
 
     def try_extract(self):
@@ -816,8 +816,8 @@ class definition(slots_getstate_setstate):
                 type_as_words = self.type.as_words
             except AttributeError as e:
                 raise RuntimeError(
-                    f".type=%s does not have an as_words method%s: {e.__class__.__name__}: {e!s}"
-                    % (str(self.type), self.where_str)
+                    ".type=%s does not have an as_words method%s: %s: %s"
+                    % (str(self.type), self.where_str, e.__class__.__name__, e)
                 )
             words = type_as_words(python_object=python_object, master=self)
         return self.customized_copy(words=words)
@@ -970,8 +970,8 @@ def scope_extract_call_proxy(full_path, words, cache):
                 )
             except Exception as e:
                 raise RuntimeError(
-                    f'scope "%s" .call=%s: {e.__class__.__name__}: {e!s}%s'
-                    % (full_path, call_expression, where_str)
+                    'scope "%s" .call=%s: %s: %s%s'
+                    % (full_path, call_expression, e.__class__.__name__, e, where_str)
                 )
         imported = _import_python_object(
             import_path=import_path,
@@ -1170,10 +1170,12 @@ class scope_extract:
             return call_proxy.callable(self, **effective_keyword_args)
         except Exception as e:
             raise RuntimeError(
-                f'scope "%s" .call=%s execution: {e.__class__.__name__}: {e!s}%s'
+                'scope "%s" .call=%s execution: %s: %s%s'
                 % (
                     self.__phil_path__(),
                     call_proxy.expression,
+                    e.__class__.__name__,
+                    e,
                     call_proxy.where_str,
                 )
             )
